@@ -41,7 +41,13 @@ def handle (c : Case) : Verdict :=
     | some n, some stage =>
       if c.ops.isEmpty then { out := [], oracle := none, nontrivial := false } else
       if c.implOut == ["infra"] then { out := c.implOut, oracle := none, nontrivial := false, tags := ["infra"] } else
-      let fired : Option Int := c.implOut.head?.bind fun l => match words l with | ["fired", h] => h.toInt? | _ => none
+      let firstWords := (c.implOut.head?.map words).getD []
+      let fired : Option Int := match firstWords with | "fired" :: h :: _ => h.toInt? | _ => none
+      -- hosts running a replica downstream of the failed one (computed by the harness from the
+      -- execution graph of the same job; see `downstream_hosts` in harness/src/jobs.rs)
+      let downstream : List Nat := match firstWords with
+        | ["fired", _, "downstream", hs] => (hs.splitOn ",").filterMap String.toNat?
+        | _ => []
       let hosts := c.implOut.drop 1 |>.filterMap parseHost
       match fired, sinks job n with
       | some fired, some exp =>
@@ -61,7 +67,7 @@ def handle (c : Case) : Verdict :=
               if bad.isEmpty then none else some s!"[C20] {ctx}: fault did not fire but sinks {bad} are not published exactly once completely: {c.implOut}"
           else
             let aff := affected job stage nsinks
-            let mustFail : List Nat := [fired.toNat, 0].eraseDups
+            let mustFail : List Nat := (fired.toNat :: downstream).eraseDups
             let notFailed := mustFail.filter fun h => hosts.any fun x => x.id == h && x.status != "panicked"
             let published := hosts.flatMap fun h => aff.filterMap fun i =>
               match h.sinks[i]? with | some s => if s != "none" then some (h.id, i, s) else none | none => none
@@ -69,7 +75,7 @@ def handle (c : Case) : Verdict :=
             else if !published.isEmpty then some s!"[C20] {ctx}: a sink downstream of the fault published a result: {published}"
             else none
         { out := c.implOut, oracle, nontrivial := fired ≥ 0,
-          tags := [job, cfg, bm, if fired ≥ 0 then "fired" else "notfired", s!"stage{stage}"] }
+          tags := ["nodiff", job, cfg, bm, if fired ≥ 0 then "fired" else "notfired", s!"stage{stage}"] }
       | _, _ => { out := [], oracle := some "[C20] bad output or unknown job", nontrivial := false }
     | _, _ => { out := [], oracle := some "bad header", nontrivial := false }
   | _ => { out := [], oracle := some "bad header", nontrivial := false }
